@@ -279,7 +279,7 @@ func runSched(t *testing.T, prop string, kinds []string) {
 	})
 }
 
-func TestSchedC03(t *testing.T) { runSched(t, "C03", []string{"sched-growth"}) }
+func TestSchedC03(t *testing.T) { runSched(t, "C03", []string{"sched-growth", "sched-rrempty"}) }
 func TestSchedC07(t *testing.T) { runSched(t, "C07", []string{"sched-refresh", "sched-bindswap"}) }
 func TestSchedC01(t *testing.T) { runSched(t, "C01", []string{"sched-bindswap"}) }
 func TestSchedC02(t *testing.T) { runSched(t, "C02", []string{"sched-spread"}) }
